@@ -958,7 +958,8 @@ func TestLegacyMigration(t *testing.T) {
 		default:
 			e = drawBool(rt, depth)
 		}
-		c := Case{Expr: e, Zone: rapid.SampledFrom([]string{"", "", "America/Bogota", "Asia/Kolkata", "Pacific/Honolulu"}).Draw(rt, "zone")}
+		// zones without any offset change in 1990-2030 (America/Bogota had DST in 1992-93: false alarm at seed 3)
+		c := Case{Expr: e, Zone: rapid.SampledFrom([]string{"", "", "Etc/GMT+5", "Asia/Kolkata", "Pacific/Honolulu", "Etc/GMT-3"}).Draw(rt, "zone")}
 		if rapid.Bool().Draw(rt, "wrap") {
 			c.Pre = rapid.SampledFrom([]string{"Hi ", "Total: ", "x=", "(", "\"", "a\\"}).Draw(rt, "pre")
 			c.Post = rapid.SampledFrom([]string{" thanks", ".", ")", "\"", " @ home", ""}).Draw(rt, "post")
